@@ -183,7 +183,11 @@ def run(prop, tier, seed, t0, a):
             failed.append(o)
         else:
             undecided.append(o)
+    bounded_ok = []        # bounded stand-ins that passed: reported separately, never counted as discharged obligations
     for x in extra:
+        if x['ok'] and '(bounded)' in str(x.get('backend', '')) + x['name'] and not x.get('undecided'):
+            bounded_ok.append(x)
+            continue
         (discharged if x['ok'] else failed).append(x) if not x.get('undecided') else undecided.append(x)
 
     # undecided obligations that came with a candidate model (E-matching stage): a candidate that replays on the real
@@ -245,7 +249,11 @@ def run(prop, tier, seed, t0, a):
     failed = still_failed
 
     nvac = sum(1 for o in obls if o.meta.get('kind') in ('vacuity-neg',))
-    n_obl = len(discharged) + len(failed) + len(undecided) + len(modulo)
+    def _is_bounded(o):
+        return isinstance(o, dict) and '(bounded)' in str(o.get('backend', '')) + o['name']
+    bounded_known = [o for o in modulo if _is_bounded(o)]
+    modulo = [o for o in modulo if not _is_bounded(o)]
+    n_obl = len(discharged) + len([o for o in failed if not _is_bounded(o)]) + len(undecided) + len(modulo)
     by_backend = {}
     for o in discharged:
         b = o['backend'] if isinstance(o, dict) else o.backend
@@ -278,7 +286,11 @@ def run(prop, tier, seed, t0, a):
                functions_under_contract={k: eng.verified[k] for k in under},
                functions_inlined_at_call_sites=sorted(x for x in eng.inlined if x),
                functions_in_anchor_not_under_contract=not_under,
-               bounded_standins=reg.bounded, samples=samples, refused=refused,
+               bounded_standins=reg.bounded + [dict(check=x['name'], tool=x.get('backend'), result='held on everything enumerated',
+                                                    bound=str(x.get('detail', ''))[:200]) for x in bounded_ok],
+               bounded_standins_known_findings=[dict(check=x['name'], detail=str(x.get('detail'))[:300]) for x in bounded_known],
+               bounded_standins_note="bounded stand-ins are labelled, affect the exit status when they fail, and are NOT counted in obligations/discharged",
+               samples=samples, refused=refused,
                repo=REPO, loops_without_variant=sorted(set(getattr(eng, 'nonterm_loops', []))))
     status = 'ok'
     rc = 0
